@@ -3,7 +3,7 @@ import ast
 
 from ..astx import (calls_in, dotted, norm, src, iter_nodes, aliases_of, assigned_targets,
                     assigned_names, const_value, is_const, parent_chain)
-from ..lib import (call_arg, relation, truth, other, cmp_views, core, holds_region, conditions, eval_conditions, relation_tests, atom_key, expand_condition, mode_mismatch_conditions, cfg_nodes_with_call, node_calls, returns, raises, raised_class, stmt_assigns_attr,
+from ..lib import (call_arg, relation, truth, other, cmp_views, core, holds_region, conditions, path_tests, entails_empty, paths_entail_empty, eval_conditions, relation_tests, atom_key, expand_condition, mode_mismatch_conditions, cfg_nodes_with_call, node_calls, returns, raises, raised_class, stmt_assigns_attr,
                    callee_last, guard_region, find_test_nodes, compare_parts, is_name, is_self_attr, node_roots)
 from ..linear import ctext, lin, Lin
 from ..loader import AnalysisError
@@ -608,8 +608,27 @@ def check_nodata(c, repo):
 
 def check_socket_timeout(c, repo, restore=True):
     """restore=True (C06-D5): also require that the socket's own timeout is put back in a finally;
-    restore=False (C05-D7): only that recv runs under a timeout derived from the caller's."""
+    restore=False (C05-D7): only that recv runs under a timeout derived from the caller's;
+    restore='leak' (C08-D6): only that SOME timeout is set again in a finally covering the yield, i.e. the temporary
+    read timeout cannot stay in force for a later sendall (which value is put back is C06's concern)."""
     f = repo.func('socket_pexpect:SocketSpawn._timeout')
+    if restore == 'leak':
+        ys = [n for n in ast.walk(f.node) if isinstance(n, (ast.Yield, ast.YieldFrom))]
+        c.need(len(ys) == 1, '_timeout: expected one yield')
+        ok = False
+        ks = [k for k in calls_in(f.node) if callee_last(k) == 'settimeout']
+        for k in ks:
+            for p in parent_chain(k):
+                if isinstance(p, ast.Try) and any(k is d for s2 in p.finalbody for d in ast.walk(s2)) \
+                        and any(ys[0] is d for s2 in p.body for d in ast.walk(s2)):
+                    ok = True
+        c.check(ok, f, ks[0] if ks else f.node, 'the temporary read timeout is replaced again in a finally clause covering the with-body, so a read that ends in '
+                'TIMEOUT / EOF cannot leave it in force for the next sendall() (which would then fail half-way through the data)',
+                witness=str([norm(k) for k in ks]), kind='ast', tag='no-timeout-leak')
+        f2 = repo.func('socket_pexpect:SocketSpawn.send')
+        c.check(not any(callee_last(k) in ('settimeout', 'setblocking') for k in calls_in(f2.node)), f2, None,
+                'send() itself does not change the socket\'s blocking mode', kind='ast', tag='send-no-mode-change')
+        return
     g = f.cfg
     saves = [n for n in g.nodes if n.kind == 'stmt' and isinstance(n.ast, ast.Assign) and isinstance(n.ast.value, ast.Call)
              and callee_last(n.ast.value) == 'gettimeout']
